@@ -40,26 +40,96 @@ HARNESS = {
     "libs": [],
 }
 
-# ---- placeholders, rewritten by the coordinator ------------------------------------------------------------
-TIE = ("PLACEHOLDER: hand-written model (FcpptModel/Model/C19.lean) mirroring context.cpp / object.cpp / level_stream.cpp + "
-       "differential correspondence of whole operation histories against the real library")
-RULE = ("PLACEHOLDER: a case is one history (`reset`, `ctx <root> <streams>`, then up to 60 operations on one context: set / get / "
-        "object construction through the three constructors / level+enabled of an object / log through object::log and through the "
+# the second harness: the same library sources under ThreadSanitizer, several threads on one context
+HARNESS_TSAN = {
+    "src": "harness/c19_tsan.cpp",
+    "repo_srcs": [x for x in HARNESS["repo_srcs"] if x != "libs/core/src/exception.cpp"] + ["libs/log/src/log/parameters_no_function.cpp"],
+    "flags": ["-DENABLE_THREADS", "-pthread"],
+    "libs": [],
+    "tsan": True,
+}
+EXTRA_HARNESSES = [HARNESS_TSAN]
+
+TIE = ("hand-written model (FcpptModel/Model/C19.lean) mirroring context.cpp / context_tree_node.cpp / find_or_create_child.cpp / "
+       "object.cpp / level_stream.cpp / chain.cpp / tree_formatter.cpp + differential correspondence of whole operation histories "
+       "against the real library (ASan/UBSan); the interleaving model (Model/C19/Conc.lean) is tied to the code by a sampled "
+       "ThreadSanitizer run of 2-6 threads on one context whose observed levels are checked against the linearisation rule")
+RULE = ("a case is one history (`reset`, `ctx <root> <streams>`, then up to 60 operations on one context: set / get / object "
+        "construction through the three constructors / level+enabled of an object / log through object::log and through the "
         "FCPPT_LOG_<LEVEL> macros); the result line of every operation is compared with the model's. evaluations counts operation "
         "lines. An op is non-trivial if it is an observation (get, lvl, objr/objl/objc, log, logm) with a well-formed result; "
-        "distinct = distinct (op line, result line) pairs, so the same `get a.b` answered with two different levels counts twice.")
+        "distinct = distinct (op line, result line) pairs. The TSan runs are counted separately in coverage.tsan.")
 ASSUMPTIONS = [
-    "PLACEHOLDER: a reference to a tree node is modelled by the node's location (nodes live in std::list, never erased)",
-    "PLACEHOLDER: atomic level of a node = a natural number; sequential use only (the threaded part is checked separately)",
-    "PLACEHOLDER: narrow strings (fcppt::string = std::string)",
+    "a reference to a tree node is modelled by the node's location (children live in a std::list and are never erased, so references stay valid)",
+    "the atomic level of a node is a natural number read/written in one step (single-copy atomicity); std::mutex = at most one owner",
+    "formatters are total functions String -> String; narrow strings (fcppt::string = std::string)",
+    "levels given to set / the context constructor are enumerators 0..5 or empty (History.Valid)",
+    "concurrent claim is PARTIAL: proved for the transcribed interleaving model only; real schedulers, the C++ memory model and "
+    "libstdc++'s mutex/atomic are outside the model, TSan is the sampled witness",
 ]
-TRUSTED = ["PLACEHOLDER: harness/c19.cpp and the line protocol (vh.hpp, Proto.lean)", "PLACEHOLDER: g++ + ASan/UBSan as memory-safety witness"]
+TRUSTED = ["harness/c19.cpp, harness/c19_tsan.cpp (its timestamp-based justification rule assumes x86-TSO) and the line protocol (vh.hpp, Proto.lean)",
+           "g++ 12 + ASan/UBSan (memory safety) and ThreadSanitizer (data races) as dynamic witnesses",
+           "the transcription of the lock/atomic discipline in FcpptModel/Model/C19/Conc.lean (reviewed against context.cpp/object.cpp, not proved)"]
 MANIFEST = {
-    "level_text": "PLACEHOLDER",
-    "level_note": "PLACEHOLDER",
-    "technique": "PLACEHOLDER: Lean 4 proof over hand-written executable model + differential correspondence of random histories (ASan/UBSan harness)",
+    "level_text": ("Machine-checked proof (Lean 4) over an executable model of the fcppt::log context tree: for every root level and every history "
+                   "of context::set calls and log-object constructions (all three constructors), context::get, object::level, "
+                   "object::enabled and the emitted text equal the specification 'latest set on a prefix wins, else the root level' / "
+                   "'object formatter . location prefixes root first . level-stream formatter' (get_eq_latest_prefix, "
+                   "object_level_eq_latest_prefix, enabled_iff, emits_iff, prefix_order), by an invariant proved over all histories. A "
+                   "small-step interleaving model of the lock/atomic discipline is proved race-free on the tree structure (lock_discipline, "
+                   "no_conflicting_unsynchronised_accesses) and every level load is proved justified by a linearisation of the overlapping "
+                   "sets (observed_level_justified, get_linearised). The sequential model is tied to the code by differential "
+                   "correspondence over random histories (length <= 60, depth <= 3, 3 names per level); the concurrent one by TSan runs."),
+    "level_note": ("Concurrent claim partial: proved about the transcribed step system only (schedulers, C++ memory model, libstdc++ mutex/atomic not "
+                   "modelled; unlocked reads of write-once node fields by tree_formatter are shown to hit existing nodes only). Trusted: Lean kernel + "
+                   "propext/Classical.choice/Quot.sound; model fidelity outside exercised inputs; harnesses; TSan/ASan as sampled witnesses."),
+    "technique": "Lean 4 proof (invariant over histories; interleaving semantics) + differential correspondence of random histories (ASan/UBSan) + ThreadSanitizer stress harness with linearisation check",
     "design_ref": "DESIGN.md §5 C19",
 }
+
+
+def extra_checks(binp, rng, tier, ev):
+    """The concurrent tie: 2-6 threads hammer one context under ThreadSanitizer; any TSan report (exit code 96), crash, or
+    observed level / emitted text that no linearisation justifies is a violation."""
+    import os
+    from vlib import harness as hb
+    from vlib.runner import run_harness
+    tbin, info = hb.build(HARNESS_TSAN)
+    if tbin is None:
+        return [{"kind": "broken-correspondence", "what": "TSan harness does not build against /repo: " + str(info.get("error", ""))[-1500:]}]
+    thorough = tier == "thorough"
+    r = rng.fork("tsan")
+    ops = []
+    for k in range(6000 if thorough else 500):
+        n = 2 + k % 5                                   # 2..6 threads, all counts equally often
+        nops = r.range(120, 300) if r.chance(3, 4) else r.range(300, 700)   # many short runs: node creation races happen early
+        root = "-" if r.chance(1, 7) else str(r.below(6))
+        ops.append(f"run {r.below(1 << 30)} {n} {nops} {root} {k % 3}")
+    lines, deaths = run_harness(tbin, ops, history=False, parts=8)
+    cov = {"runs": len(ops), "threads": {}, "deaths": len(deaths), "harness": {k: info.get(k) for k in ("cached", "key", "seconds")}}
+    viol = []
+    for op, line in zip(ops, lines):
+        t = op.split()
+        cov["threads"][t[2]] = cov["threads"].get(t[2], 0) + 1
+        if line is not None and line.startswith("ok "):
+            for kv in line.split()[1:]:
+                k, _, v = kv.partition("=")
+                if k != "threads" and v.isdigit():
+                    cov[k] = cov.get(k, 0) + int(v)
+            continue
+        if line in ("NOT-RUN", None):
+            continue
+        if len(viol) < 3:
+            viol.append({"kind": "input", "batch": "tsan-threads", "batch_kind": "stateless", "ops": [op],
+                         "expected": ["ok ... (no ThreadSanitizer report, every observed level justified by a linearisation, every text as documented)"],
+                         "observed": [line],
+                         "what": ("concurrent use of one context: " + line[:400] + f" -- rerun (schedule dependent): echo '{op}' | "
+                                  f"TSAN_OPTIONS=exitcode=96:halt_on_error=1 {tbin}")})
+    cov["violating_runs"] = sum(1 for l in lines if l is not None and not l.startswith("ok ") and l != "NOT-RUN")
+    ev["coverage"]["tsan"] = cov
+    ev["coverage"]["generator_op_mix"] = dict(GEN_STATS)
+    return viol
+
 
 # ---- generators --------------------------------------------------------------------------------------------
 NAMES = ["a", "b", "c"]          # the same three names at every depth
